@@ -85,13 +85,32 @@ def walks(adj, init, rnd, n_random):
 def run(pid, tier, seed):
     t0 = time.time()
     verdict = V.Verdict(pid)
+    st, events, samples = explore(pid, tier, seed, verdict, full=True)
+    V.log("[%s] %s; %d events" % (pid, {k: v for k, v in st.items() if not isinstance(v, dict)}, events))
+    ev = {"property_id": pid, "tier": tier, "seed": seed, "level": "model_checking",
+          "coverage": {"states": st["states"], "transitions": st["transitions"],
+                       "traces_validated_against_impl": st.get("replayed_behaviours", 0),
+                       "evaluations": events, "distinct_nontrivial": st.get("replayed_behaviours", 0),
+                       "rule": "behaviours = maximal paths of TLC's state graph of Loader (an edge cover of the 2- and 3-thread graphs "
+                               "plus seeded random walks) replayed step by step into the real LoadTimeZone, attack schedules of the "
+                               "unserialised protocol, and free-running stress histories; distinct by construction (graph walks)",
+                       "samples": samples or ["(none)"], "detail": st, "exhaustive": False},
+          "assumptions": ["TLC; spec/Loader.tla as the model of LoadTimeZone at critical-section granularity",
+                          "ThreadSanitizer observes data races on the executed schedules only",
+                          "hooks (GOOGLE_CCTZ_VERIF) give controllability; verdicts rest on factory observations and returned values"],
+          "wall_s": time.time() - t0}
+    return verdict.finish(ev)
+
+
+def explore(pid, tier, seed, verdict, full=True):
+    """full = False: only the 2-thread conformance replay (used by C14 for the name-cache clause)."""
     work = V.workdir("loader-" + pid)
     rnd = random.Random(seed)
     st = {"states": 0, "transitions": 0}
     invs = ["FactoryOnce", "FactorySerial", "NoFactoryForFixed", "Agree", "SeqEquiv", "LoadLockHeld"]
     # ---- 1. model check
-    cfgs = [("fix2", 2, "MCNames", "MCKind", 2), ("fix3", 3, "MCNames", "MCKind", 1)]
-    if tier == "thorough":
+    cfgs = [("fix2", 2, "MCNames", "MCKind", 2)] + ([("fix3", 3, "MCNames", "MCKind", 1)] if full else [])
+    if tier == "thorough" and full:
         cfgs.append(("fix4", 4, "MCNames2", "MCKind2", 1))
     for tag, k, names, kind, mc in cfgs:
         r = V.tlc("MCLoader", mk_cfg(os.path.join(work, "mc_%s.cfg" % tag), k, names, kind, mc, True, invs),
@@ -113,10 +132,13 @@ def run(pid, tier, seed):
     lines = []
     beh = 0
     nb = {}
-    for tag, k, names, kind, mc, ser, nrand in (("s2", 2, "MCNames2", "MCKind2", 2, True, 300 if tier == "quick" else 5000),
-                                                  ("s3", 3, "MCNames2", "MCKind2", 1, True, 300 if tier == "quick" else 5000),
-                                                  ("a2", 2, "MCNames2", "MCKind2", 1, False, 150 if tier == "quick" else 2000),
-                                                  ("a3", 3, "MCNames2", "MCKind2", 1, False, 100 if tier == "quick" else 2000)):
+    plans = [("s2", 2, "MCNames2", "MCKind2", 2, True, 300 if tier == "quick" else 5000),
+             ("s3", 3, "MCNames2", "MCKind2", 1, True, 300 if tier == "quick" else 5000),
+             ("a2", 2, "MCNames2", "MCKind2", 1, False, 150 if tier == "quick" else 2000),
+             ("a3", 3, "MCNames2", "MCKind2", 1, False, 100 if tier == "quick" else 2000)]
+    if not full:
+        plans = [("s2", 2, "MCNames2", "MCKind2", 2, True, 150 if tier == "quick" else 1500)]
+    for tag, k, names, kind, mc, ser, nrand in plans:
         r, adj, init = graph(work, tag, k, names, kind, mc, ser)
         if init is None:
             verdict.infra_failure("state graph %s: %s" % (tag, r.tail(5)))
@@ -124,7 +146,7 @@ def run(pid, tier, seed):
         st["states"] += r.distinct
         st["transitions"] += r.generated
         ws, cover = walks(adj, init, rnd, nrand)
-        if tier == "quick":
+        if tier == "quick" or not full:
             # a seed-rotated part of the edge cover + the random walks
             cw = ws[:cover]
             rnd.shuffle(cw)
@@ -138,7 +160,7 @@ def run(pid, tier, seed):
             lines.append("E")
     nth = 16 if tier == "quick" else 64
     lines.append("TW %d" % nth)
-    for i in range(3 if tier == "quick" else 12):
+    for i in range((3 if tier == "quick" else 12) if full else 1):
         lines.append("T %d %d" % (nth, 40 if tier == "quick" else 150))
     bf = os.path.join(work, "behaviours.txt")
     open(bf, "w").write("\n".join(lines) + "\n")
@@ -203,24 +225,14 @@ def run(pid, tier, seed):
                 else:
                     key = k
                 relevant = (pid == "C20" and (k in ("Attack", "SFacEnter") or k == "LStep")) or \
-                           (pid == "C13" and k in ("LStep", "SRet", "SFacEnter"))
+                           (pid == "C13" and k in ("LStep", "SRet", "SFacEnter")) or \
+                           (pid == "C14" and k in ("LStep", "SRet", "SFacEnter"))      # the name cache is invisible
+                if pid == "C14":
+                    key = "cache:" + key
                 if relevant:
                     verdict.violation(key, "rejected by LoaderTrace: " + ls[n - 1][:400], e)
     st.update(nb)
-    V.log("[%s] %s; %d events" % (pid, {k: v for k, v in st.items() if not isinstance(v, dict)}, events))
-    ev = {"property_id": pid, "tier": tier, "seed": seed, "level": "model_checking",
-          "coverage": {"states": st["states"], "transitions": st["transitions"],
-                       "traces_validated_against_impl": st.get("replayed_behaviours", 0),
-                       "evaluations": events, "distinct_nontrivial": st.get("replayed_behaviours", 0),
-                       "rule": "behaviours = maximal paths of TLC's state graph of Loader (an edge cover of the 2- and 3-thread graphs "
-                               "plus seeded random walks) replayed step by step into the real LoadTimeZone, attack schedules of the "
-                               "unserialised protocol, and free-running stress histories; distinct by construction (graph walks)",
-                       "samples": samples or ["(none)"], "detail": st, "exhaustive": False},
-          "assumptions": ["TLC; spec/Loader.tla as the model of LoadTimeZone at critical-section granularity",
-                          "ThreadSanitizer observes data races on the executed schedules only",
-                          "hooks (GOOGLE_CCTZ_VERIF) give controllability; verdicts rest on factory observations and returned values"],
-          "wall_s": time.time() - t0}
-    return verdict.finish(ev)
+    return st, events, samples
 
 
 def cur_is_stress(cur):
